@@ -1,8 +1,63 @@
-import Pun.Model.Proto
+import Pun.Model.MixedUp
+import Pun.Drv.C13
 namespace Pun.Drv.C14
-open Pun
+open Pun Pun.Arith Pun.Expr Pun.B2B Pun.MixedUp Pun.Drv.C13
+
+/-- `left1|right1|left2|right2|…` -/
+def parseVars (s : String) : Option (List PB) :=
+  let rec go : List String → Option (List PB)
+    | [] => some []
+    | l :: r :: rest => do
+        let l ← parseList l
+        let r ← parseList r
+        let t ← go rest
+        some (⟨l, r⟩ :: t)
+    | _ => none
+  go (s.splitOn "|")
+
+def chunks (d : Nat) : Nat → List Rat → List (List Rat)
+  | 0, _ => []
+  | fuel + 1, l => if l.isEmpty ∨ d = 0 then [] else l.take d :: chunks d fuel (l.drop d)
+
+def showVals (r : Except Err (List Val)) : String :=
+  match r with
+  | .ok vs => s!"ok {vs.length} {showList (vs.flatMap (fun v => [v.lo, v.hi]))}"
+  | .error e => s!"err {e}"
 
 def handle : List String → String
+  | ["mix", mode, pv, vars, lv, strat, style, nsub, expr, table] =>
+    match parseList pv, parseVars vars, parseList lv, parseStyle style, parseNsub nsub, parseExpr expr,
+          parseTable table with
+    | some pv, some vars, some lv, some style, some nsub, some e, some t =>
+      let φ := tableFun t
+      let s := parseStrategy strat
+      if mode = "slice" then
+        match missing t (queriesMix φ e pv vars (levelTuples lv vars.length) s style nsub) with
+        | [] => showVals (slicing φ e pv vars lv s style nsub)
+        | qs => showNeed qs
+      else if mode = "imc" then
+        let levels := chunks vars.length (lv.length + 1) lv
+        if vars.length = 0 ∨ levels.length * vars.length ≠ lv.length then "bad-op" else
+        match missing t (queriesMix φ e pv vars levels s style nsub) with
+        | [] => showVals (imc φ e pv vars levels s style nsub)
+        | qs => showNeed qs
+      else "bad-op"
+    | _, _, _, _, _, _, _ => "bad-op"
+  | ["grid", pl, ph, k] =>
+    match parseRat pl, parseRat ph, k.toNat? with
+    | some pl, some ph, some k => s!"ok {showList (gridLevels pl ph k)}"
+    | _, _, _ => "bad-op"
+  | ["levels", grid, d] =>
+    match parseList grid, d.toNat? with
+    | some g, some d => let ts := levelTuples g d; s!"ok {ts.length} {showList (ts.flatMap id)}"
+    | _, _ => "bad-op"
+  | ["cut", pv, l, r, a] =>
+    match parseList pv, parseList l, parseList r, parseRat a with
+    | some pv, some l, some r, some a =>
+      match alphaCut pv ⟨l, r⟩ a with
+      | .ok (x, y) => s!"ok {findNearest pv a} {showRat x} {showRat y}"
+      | .error e => s!"err {e}"
+    | _, _, _, _ => "bad-op"
   | _ => "bad-op"
 
 end Pun.Drv.C14
